@@ -571,19 +571,18 @@ class DataFrameSchemaBackend(PolarsSchemaBackend):
         self,
         check_obj: pl.LazyFrame,
         schema,
-    ) -> CoreCheckResult:
+    ) -> List[CoreCheckResult]:
         """Check that column values are unique."""
 
-        passed = True
-        message = None
-        failure_cases = None
-        check_output = None
+        results: List[CoreCheckResult] = []
 
         if not schema.unique:
-            return CoreCheckResult(
-                passed=passed,
-                check="dataframe_column_labels_unique",
-            )
+            return [
+                CoreCheckResult(
+                    passed=True,
+                    check="dataframe_column_labels_unique",
+                )
+            ]
 
         # NOTE: fix this pylint error
         # pylint: disable=not-an-iterable
@@ -602,14 +601,26 @@ class DataFrameSchemaBackend(PolarsSchemaBackend):
                 failure_cases = check_obj.filter(duplicates).collect()
                 check_output = pl.DataFrame({CHECK_OUTPUT_KEY: ~duplicates})
 
-                passed = False
-                message = f"columns '{*subset,}' not unique:\n{failure_cases}"
-                break
-        return CoreCheckResult(
-            passed=passed,
-            check="multiple_fields_uniqueness",
-            reason_code=SchemaErrorReason.DUPLICATES,
-            message=message,
-            failure_cases=failure_cases,
-            check_output=check_output,
-        )
+                # every violated set of columns is reported
+                results.append(
+                    CoreCheckResult(
+                        passed=False,
+                        check="multiple_fields_uniqueness",
+                        reason_code=SchemaErrorReason.DUPLICATES,
+                        message=(
+                            f"columns '{*subset,}' not unique:\n"
+                            f"{failure_cases}"
+                        ),
+                        failure_cases=failure_cases,
+                        check_output=check_output,
+                    )
+                )
+        if not results:
+            results.append(
+                CoreCheckResult(
+                    passed=True,
+                    check="multiple_fields_uniqueness",
+                    reason_code=SchemaErrorReason.DUPLICATES,
+                )
+            )
+        return results
